@@ -435,7 +435,7 @@ func (c *Conn) handle(rawHdr, rawBody []byte) {
 				ks := strings.TrimSpace(q[4:])
 				canon := ks
 				if len(ks) >= 2 && ks[0] == '"' && ks[len(ks)-1] == '"' {
-					canon = ks[1 : len(ks)-1]
+					canon = strings.ReplaceAll(ks[1:len(ks)-1], "\"\"", "\"")
 				} else {
 					canon = strings.ToLower(ks)
 				}
